@@ -73,6 +73,14 @@ def accept_set(ctx, spec, keys, allowed, names=None, targets="nonfalse", init=No
         if un:
             out.append(ctx.err(spec, "cannot decide accept-set of %s: %s (line %d)" % (label, un[0][1], un[0][0].lineno), fn, mod))
             continue
+        # a table lookup keyed by the tracked quantity (`TABLE.get(len(x))`, `TABLE[len(x)]`) selects behaviour without any comparison
+        # the interval analysis could interpret: the accept-set computed above ignores it, so nothing is concluded
+        lookups = [x for x in ast.walk(fn) if (isinstance(x, ast.Call) and isinstance(x.func, ast.Attribute) and x.func.attr == "get" and x.args and ast.unparse(x.args[0]) == k)
+                   or (isinstance(x, ast.Subscript) and ast.unparse(x.slice) == k and not isinstance(x.slice, ast.Constant))]
+        if lookups:
+            out.append(ctx.err(spec, "cannot decide accept-set of %s: it selects an entry of a table (`%s`), which the interval analysis does not interpret" % (
+                label, ast.unparse(lookups[0])[:60]), lookups[0], mod))
+            continue
         extra = acc.minus(allowed)
         w = _residue_witness(fn, ra, k, extra, tnodes, prefer)
         if w is None:
